@@ -132,9 +132,8 @@ TraceSpec == TraceInit /\ [][TraceNext]_tvars
 GenInit == Init /\ l = 0 /\ l0 = 0 /\ drift = <<>>
 GenNext == Next /\ UNCHANGED <<l, l0, drift>>
 Emit11 == (ctl.phase = "done") => PrintT("SCHED " \o ToJson([cfg |-> cfg, faults |-> hist, k1 |-> ctl.k1, nrec |-> ctl.nrec]))
-\* c17 (simulation): print the history once, when it is full or nothing but stuttering is left
-Emit17 == (Len(hist) = MaxHist) => PrintT("HIST " \o ToJson([cfg |-> cfg, steps |-> hist]))
-Stop17 == Len(hist) < MaxHist
+\* c17 (simulation): print the history of a behaviour when nothing is left to do
+Emit17 == (~ENABLED GenNext) => PrintT("HIST " \o ToJson([cfg |-> cfg, steps |-> hist]))
 
 \* drift monitors (never a violation)
 D_NoDrift == drift = <<>>
